@@ -514,7 +514,7 @@ def check(pid, tier, seed, replay_file=None):
         print(f"INCONCLUSIVE property={pid} harness build failed")
         log(out[-3000:])
         return 2
-    if plan.get("release"):
+    if plan.get("release") or any(j.get("also_release") for j in plan.get("jobs", [])):
         rc, out, exe_rel, _ = harness_build(release=True)
         if rc != 0:
             exe_rel = None
